@@ -574,6 +574,10 @@ def cross_entropy(
         label_smoothing=label_smoothing,
     )
     if reduction == "mean":
+        if not target.is_floating_point():
+            # As in F.cross_entropy, average over the non-ignored targets only
+            n_targets = (target != ignore_index).sum().to(loss.dtype)
+            return scale_fwd(loss, 1 / n_targets)  # type: ignore[arg-type]
         return scale_fwd(loss, 1 / batch_size)
     assert reduction == "sum"
     return loss
